@@ -132,6 +132,10 @@ class SymArray(_np.ndarray):
     conjugate = conj
 
     def astype(self, dtype, *a, **k):
+        if k.get('copy') is False and not getattr(self, '_int_dtype', None):
+            real = getattr(dtype, '_real', dtype)
+            if (isinstance(dtype, _DType) and dtype.kind in 'fc') or real in (float, complex) or real is _np.float64 or real is _np.complex128:
+                return self        # same floating type: numpy hands back the very same array (aliasing is observable)
         return astype(self, dtype)
 
     def tobytes(self, order='C'):
@@ -216,7 +220,9 @@ class SymArray(_np.ndarray):
     def __array_wrap__(self, obj, context=None, return_scalar=False):
         if obj.dtype != object:
             return _np.asarray(obj)
-        return obj.view(SymArray)
+        out = obj.view(SymArray)
+        out._int_dtype = None      # the integer tag belongs to casts and their views, not to results of arithmetic on them
+        return out
 
 
 def current_precision_name():
